@@ -24,6 +24,7 @@ import multiprocessing
 import os
 import random
 import re
+import threading
 import time
 
 import common as C
@@ -61,7 +62,8 @@ ERR = {"AlreadyRegistered": "EAlreadyRegistered", "NotRegistered": "ENotRegister
 # ORBITS.  Two renamings leave a configuration of the exhaustive part unchanged: slot <-> fill (both pre-existing tags
 # of the Library, both protected or both not, treated alike by the formatter: orbit_ok() checks this per
 # configuration) and K1 <-> K1b (two class objects, one _class_hash).  They generate a group G of order 4 acting on
-# histories; the property statement and the model are invariant under G.  A history is CANONICAL when it is the
+# histories; the property statement and the model are invariant under G (for K1 <-> K1b this is theorem
+# class_objects_never_inspected).  A history is CANONICAL when it is the
 # lexicographically least of its orbit, i.e. the first call naming slot or fill names slot and the first register of
 # K1 or K1b registers K1; prefixes of canonical histories are canonical, so the canonical histories form a tree that
 # is enumerated without ever building the others.  Of every sub-tree (task) the image under one member g of G, drawn
@@ -1035,7 +1037,15 @@ def run(tier, seed):
     pool = multiprocessing.get_context("fork").Pool(processes=C.NCPU)
     try:
         last = None
-        for ti, r in enumerate(pool.imap(_pool_walk, tasks, chunksize=1)):
+        # back-pressure: at most ~one coqc batch of finished sub-trees waits in memory while coqc is busy
+        budget = threading.BoundedSemaphore(20 * C.NCPU)
+
+        def feed():
+            for t in tasks:
+                budget.acquire()
+                yield t
+        for ti, r in enumerate(pool.imap(_pool_walk, feed(), chunksize=1)):
+            budget.release()
             if task_group[ti] != last or batch["nodes"] >= 1600000:
                 flush()
                 last = task_group[ti]
@@ -1137,8 +1147,9 @@ def run(tier, seed):
              "+ clear + all = 17 per registry. One registry, default / shorthand formatter x Library without / with mark_protected_tags (4 "
              "configurations): (i) ALL histories of length %d (17^%d each; every shorter history is an observed prefix); (ii) length %d, %s: ONE history "
              "per ORBIT of the group G (order 4) generated by the renamings slot<->fill (both pre-existing tags of the Library, both protected or "
-             "both not, treated alike by both formatters - checked per configuration) and K1<->K1b: statement, configuration and model are "
-             "invariant under G; the canonical histories (first call naming slot/fill names slot, first registration of K1/K1b registers K1) are "
+             "both not, treated alike by both formatters - checked per configuration) and K1<->K1b: statement and configuration are "
+             "invariant under G, the model too (K1<->K1b: theorem class_objects_never_inspected; slot<->fill: by inspection - names enter "
+             "only through equality, the formatter and membership in tag table / protected list); the canonical histories (first call naming slot/fill names slot, first registration of K1/K1b registers K1) are "
              "closed under prefixes, so they are enumerated as a tree without building the rest, and of every sub-tree the image under a member "
              "of G drawn from the seed is what is run - each orbit exactly once, no member systematically skipped; that the code does not tell "
              "members of an orbit apart is NOT assumed up to length %d, where all of them are run. 8 further configurations (custom protected "
